@@ -62,3 +62,9 @@ package snps
 //@   loop 4:
 //@     invariant !failed(w) && len(sent(cWriteDone)) == 0
 //@   ensures [c19.reported] implies(failed(w), len(sent(cErr)) >= 1 && len(sent(cWriteDone)) == 0)
+
+//@ # C18: validation prefix of the entry point (everything before the first goroutine): a --reference with more than one
+//@ # record is refused; past the check exactly one reference record exists (so refs[0] cannot panic).
+//@ func SNPs prefix
+//@   modifies everything
+//@   after if#2: assert [c18.oneref] len(refs) == 1
